@@ -28,6 +28,10 @@ type Log = Rc<RefCell<Vec<Event>>>;
 struct Probe {
     id: usize,
     log: Log,
+    /// mutable state stored *inline* in the node weight (not behind a pointer): every process()
+    /// call writes to it through `&mut self`, so a graph borrow that aliases the weight while the
+    /// node runs is an access the aliasing model (Miri) can see
+    calls: u64,
 }
 /// under Miri touching all 64 samples of every buffer costs seconds per call; in lean mode the
 /// probes read/write only the first and last sample of each buffer (still through the same
@@ -38,6 +42,7 @@ fn lean_mode() -> bool {
 }
 impl Node for Probe {
     fn process(&mut self, inputs: &[Input], output: &mut [Buffer]) {
+        self.calls += 1;
         let mut sum = 0.0f64;
         let mut ins = Vec::with_capacity(inputs.len());
         for i in inputs {
@@ -218,7 +223,7 @@ fn build<C: Container>(d: &Desc) -> Built<C> {
     let mut live = Vec::new();
     for i in 0..d.n {
         let nb = d.bufs.get(i).copied().unwrap_or(1);
-        let idx = g.add_node(NodeData::new(Probe { id: i, log: log.clone() }, vec![Buffer::SILENT; nb]));
+        let idx = g.add_node(NodeData::new(Probe { id: i, log: log.clone(), calls: 0 }, vec![Buffer::SILENT; nb]));
         assert_eq!(idx.index(), i);
         live.push(i);
     }
@@ -235,7 +240,7 @@ fn build<C: Container>(d: &Desc) -> Built<C> {
     }
     for k in 0..d.readd {
         let id = d.n + k;
-        let idx = g.add_node(NodeData::new(Probe { id: 0, log: log.clone() }, vec![Buffer::SILENT; 1]));
+        let idx = g.add_node(NodeData::new(Probe { id: 0, log: log.clone(), calls: 0 }, vec![Buffer::SILENT; 1]));
         // the probe's id is its slot index
         g.weight_mut(idx).node.id = idx.index();
         let _ = id;
@@ -685,7 +690,7 @@ fn main() {
                 rep.exhaustive("every simple digraph with loops on 4 nodes (2^16) x every output x {Graph, StableGraph}");
             }
             // random larger graphs, processed 3 times each
-            let n_rand = if full { cli.t(1_500u64, 100_000u64) } else { cli.t(1_000, 20_000) };
+            let n_rand = if full { cli.t(1_500u64, 600_000u64) } else { cli.t(1_000, 20_000) };
             let reps = vmon::par_for(cli.threads, n_rand, 8, |_| (Report::new("C09", "w"), Processor::<G>::with_capacity(4), Processor::<SG>::with_capacity(4)), |st, i| {
                 let (rep, pg, psg) = st;
                 let mut rng = Rng::derive(cli.seed, &[9, i]);
